@@ -21,7 +21,7 @@ CLAIMS: dict = {
              '_batch and _collect_frames enter the proof by contract; the contracts are checked by bounded stand-ins '
              '(labelled bounded, not counted). The composition of the three layers into the per-observable statements '
              'is hand-argued (DESIGN 5 C01.4). XML reading itself is C02/C20. Related known findings K1, K13 are '
-             'reported under C04/C05. Audit findings recorded with probes: K27 (entry_rank of senses an extension adds to a base entry), K28 (Unicode white space in text), K29 (frames sharing their text).',
+             'reported under C04/C05. Audit findings recorded with probes: K27 (entry_rank of senses an extension adds to a base entry), K28 (Unicode white space in text), K29 (frames sharing their text). Known findings K31 (new forms of an extension on a base entry), K32 (UNIQUE constraint on forms).',
         technique='contract-based deductive verification: AST->VC symbolic execution + SQL->FOL, family equality '
                   'obligations discharged by z3',
         engines=['pyvc', 'sqlvc', 'bounded']),
@@ -86,7 +86,7 @@ CLAIMS: dict = {
              'order independence of (status, definition) w.r.t. add(lexicons), listed ILIs authoritative; ILI queries '
              'and accessors proved exact.',
         note='SQLite upsert semantics assumed (existing row keeps rowid and other columns). wn._ili.load / is_ili are a '
-             'bounded stand-in on generated files. Fixed finding F11 (single-column ILI file not recognised).',
+             'bounded stand-in on generated files. Fixed finding F11 (single-column ILI file not recognised). ILI identity and the table of ILI.metadata() are checked here too (fixed finding F31).',
         technique='contract-based deductive verification: effect-log/row-image obligations + z3 lemmas; bounded file parsing',
         engines=['pyvc', 'sqlvc', 'bounded']),
     'C09': dict(
@@ -179,7 +179,7 @@ CLAIMS: dict = {
              '(hypernyms share the part of speech up to a/s). Fixed findings: K14 (wup took the first of a set-ordered list of lowest '
              'common hypernyms; the list is sorted since F15, and wup:symmetric is discharged over the contract "first '
              'in the fixed order"), K15 -> F28 (res used the least informative one), F6 (KeyError for satellite '
-             'adjectives). K22 / K30 (see C13) affect wup/path through inferred lowest common hypernyms and pairs from two lexicons.',
+             'adjectives). K22 / K30 (see C13) affect wup/path through inferred lowest common hypernyms and pairs from two lexicons. Fixed finding F32: res() is the maximum over ALL common hypernyms (contract in_common).',
         technique='contract-based deductive verification: symbolic execution of the real functions over uninterpreted graph '
                   'contracts, z3 (reals); bounded stand-in on small digraphs',
         engines=['pyvc', 'bounded']),
@@ -208,7 +208,7 @@ CLAIMS: dict = {
              'wn.Error of _insert_sense_relations.',
         note='W403/W404 (tuple-keyed accumulations whose content depends on set iteration order, see C16) are covered for '
              'no-raise only. W501 exactness is claimed for unique synset ids. collections.Counter semantics assumed '
-             '(A-PY-COUNTER). Context fields of the items are not compared. Fixed finding F1 (KeyError in W501). W203 is decided by a labelled small-scope enumeration (the repaired code uses dict.fromkeys(generator), which the interpreter does not follow). Fixed findings F25 (W203), F26 (E101).',
+             '(A-PY-COUNTER). Context fields of the items are not compared. Fixed finding F1 (KeyError in W501). W203 is decided by a labelled small-scope enumeration (the repaired code uses dict.fromkeys(generator), which the interpreter does not follow). Fixed findings F25 (W203), F26 (E101). All 18 checks (incl. W403/W404) are compared with an oracle from the documented conditions on random broken lexicons (bounded); fixed finding F30 (W404).',
         technique='contract-based deductive verification: AST-level symbolic execution of the real checks over records '
                   'generated from the lmf TypedDicts, z3',
         engines=['pyvc']),
